@@ -38,6 +38,8 @@ Re Ast Types1 Float Int Class Def End For If While Function Namespace Private Pu
 Stat Clock System Exit Free Printf Abs Div Exp Sin Pow Rand Remove Rename Read Write Open Close Link Wait Sleep Puts Errno Stdin Unix Linux Min Max
 String Vector Map Chrono Date Hdf5 Testing Mocks Detail Nlohmann Xt H5 Complex Array Optional Variant""".split()
 
+ALWAYS = ["Version", "self", "other", "zeros", "eq", "ne", "isequal", "Binary", "Ndjson", "Types", "Yardl", "Np", "Typing", "Datetime", "Class", "Int"]
+
 INIT_NAMES = ["mypkg", "my-pkg", "my_pkg", "MyPkg", "a", "A", "1abc", "my pkg", "my.pkg", "class", "std", "yardl", "import", "Def", "end", "a-b-c", "int",
               "numpy", "types", "test", "x1", "9", "-", "_", "ab_", "pkgAB", "pkg-1", "tm", "time", "detail"]
 
@@ -413,7 +415,8 @@ def main():
         ents = sorted(ents)
         if not thorough:
             c.rng.shuffle(ents)
-            keep = [e for e in ents if e[1] in CPP_KEYWORDS + PY_KEYWORDS + MATLAB_KEYWORDS]
+            # keywords, and the words behind defects that were found and repaired, are always tried; the rest is sampled
+            keep = [e for e in ents if e[1] in CPP_KEYWORDS + PY_KEYWORDS + MATLAB_KEYWORDS + ALWAYS]
             rest = [e for e in ents if e not in keep]
             ents = sorted(keep + rest[:max(40, len(rest) // 3)])
         size = 1 if scope == "imports" else 6 if scope == "dims" else 12
@@ -535,6 +538,22 @@ def main():
         cfg_jobs.append((p, dict(FULL), -p.idx - 1))
     for p in iso_pkgs:
         cfg_jobs.append((p, dict(FULL), -p.idx - 1))
+
+    # "accepted package" is the premise: a package of the random universe that yardl rejects under the full configuration (the concretiser
+    # can produce two unions with the same tags and different types) is not a test
+    def accepted(p):
+        root = os.path.join(sc, "acc%d" % p.idx)
+        q = we.Package(p.idx, [], root)
+        q.steps, q.style, q.root = p.steps, p.style, root
+        q.write_model()
+        rc, txt, panic = generate(yardl, os.path.join(root, "model"), home)
+        shutil.rmtree(root, ignore_errors=True)
+        return p.idx, rc == 0 or panic
+    ok_idx = {i for i, ok in pmap(accepted, pkgs + iso_pkgs, jobs=NCPU) if ok}
+    dropped = len(pkgs) + len(iso_pkgs) - len(ok_idx)
+    if dropped:
+        c.note("%d packages of the random universe are rejected by yardl itself and were left out" % dropped)
+    cfg_jobs = [j for j in cfg_jobs if j[0].idx in ok_idx]
 
     def cfg_work(arg):
         p, cfg, n = arg
